@@ -121,3 +121,24 @@ VARIANTS += [
     dict(prop="C15", name="benign-front-match", benign=True,
          edits=[dict(file=SJ, find="        } else if this.source.is_done() {\n            periodic_memory_report(*this.spawned);\n            Poll::Ready(None)\n        } else {\n            Poll::Pending\n        }", replace="        } else if !this.source.is_done() {\n            Poll::Pending\n        } else {\n            periodic_memory_report(*this.spawned);\n            Poll::Ready(None)\n        }")]),
 ]
+
+BTF = "ipa-core/src/protocol/context/batcher.rs"
+VARIANTS += [
+    # ---------------- C16 ----------------
+    dict(prop="C16", name="send-replace-true", expect="VERDICT|publishes-is_ok",
+         edits=[dict(file=BTF, find="state.validation_result.send_replace(result.is_ok());", replace="state.validation_result.send_replace(true);")]),
+    dict(prop="C16", name="no-arm-swapped", expect="VERDICT|no-arm",
+         edits=[dict(file=BTF, find="                    if *validation_result_rx.borrow() {", replace="                    if !*validation_result_rx.borrow() {")]),
+    dict(prop="C16", name="ready-ge", expect="GUARD-ready|comparison-is-eq",
+         edits=[dict(file=BTF, find="        if batch.pending_count == total_count {", replace="        if batch.pending_count + 1 >= total_count {")]),
+    dict(prop="C16", name="total-count-ignores-total", expect="GUARD-ready|total-count-shape",
+         edits=[dict(file=BTF, find="        let total_count = min(self.records_per_batch, remaining_records);", replace="        let total_count = if remaining_records > 0 { self.records_per_batch } else { 0 };")]),
+    dict(prop="C16", name="no-changed-await", expect="VERDICT|no-arm:changed-before-read",
+         edits=[dict(file=BTF, find="                    validation_result_rx\n                        .changed()\n                        .await\n                        .expect(\"sender should not be dropped\");\n", replace="                    if !*validation_result_rx.borrow() {\n                        validation_result_rx.changed().await.expect(\"sender should not be dropped\");\n                    }\n")]),
+    dict(prop="C16", name="dropped-offset-assert", expect="COUNT|write#0:after-offset-check",
+         edits=[dict(file=BTF, find="        assert!(\n            record_offset_in_batch < total_count,", replace="        debug_assert!(\n            record_offset_in_batch <= total_count,")]),
+    dict(prop="C16", name="benign-mem-replace", benign=True,
+         edits=[dict(file=BTF, find="                batch = self.batches[batch_offset].take();", replace="                batch = std::mem::replace(&mut self.batches[batch_offset], None);")]),
+    dict(prop="C16", name="yes-without-removal", expect="ORDER-take",
+         edits=[dict(file=BTF, find="                batch = self.batches[batch_offset].take();", replace="                let (validation_result, _) = watch::channel::<bool>(false);\n                batch = Some(BatchState { batch: (self.batch_constructor)(batch_index), validation_result, pending_count: 0, pending_records: bitvec![0; 1] });")]),
+]
